@@ -12,12 +12,12 @@ git -C /repo worktree add -q "$WT" HEAD || exit 2
 trap 'git -C /repo worktree remove --force "$WT" >/dev/null 2>&1' EXIT
 cd "$WT"
 cp "$OUT/demo_test.go" "$WT/$PKG/zz_seed_demo_test.go"
-if $GO test -count=1 -run "$RUN" "./$PKG/" >/tmp/tryseed-$$.log 2>&1; then echo "demo WITHOUT change: pass"; else echo "demo WITHOUT change: FAIL (bad demo)"; tail -5 /tmp/tryseed-$$.log; fi
+if $GO test -tags verif -count=1 -run "$RUN" "./$PKG/" >/tmp/tryseed-$$.log 2>&1; then echo "demo WITHOUT change: pass"; else echo "demo WITHOUT change: FAIL (bad demo)"; tail -5 /tmp/tryseed-$$.log; fi
 rm -f "$WT/$PKG/zz_seed_demo_test.go"
 git apply "$OUT/patch.diff" || { echo "patch does not apply"; exit 2; }
 if $GO test -count=1 "./$PKG/" >/tmp/tryseed-$$.log 2>&1; then echo "existing tests WITH change: pass"; else echo "existing tests WITH change: FAIL"; tail -5 /tmp/tryseed-$$.log; fi
 cp "$OUT/demo_test.go" "$WT/$PKG/zz_seed_demo_test.go"
-if $GO test -count=1 -run "$RUN" "./$PKG/" >/tmp/tryseed-$$.log 2>&1; then echo "demo WITH change: pass (change does not break the demo!)"; else echo "demo WITH change: fail (as intended)"; fi
+if $GO test -tags verif -count=1 -run "$RUN" "./$PKG/" >/tmp/tryseed-$$.log 2>&1; then echo "demo WITH change: pass (change does not break the demo!)"; else echo "demo WITH change: fail (as intended)"; fi
 rm -f "$WT/$PKG/zz_seed_demo_test.go" /tmp/tryseed-$$.log
 for C in "$@"; do
   cd /verif
